@@ -184,6 +184,61 @@ def baseDeleteAll (isDisk : Bool) (d : Disk) (pfx : Str) : Except PErr Disk :=
     | .ok m' => .ok { d with files := m' }
     | .error er => .error er
 
+/-! ### An atomic put IN FLIGHT (writer still open)
+
+  `storageos.bucket.Put` with `PutWithAtomic` creates `os.CreateTemp(dir, ".tmp"+base+"*")` NEXT TO
+  the final path and renames it on `Close`.  Between the two the temp file is an ordinary regular
+  file of the directory: as coded `Walk` lists it and `Get`/`Stat` serve it — the tree has one more
+  object, and stays one path→bytes map (`Props/C14.inflight_*`).  The property does not say
+  whether the temp file should be shown; this models what the code does.  The temp file's base
+  name (`tmp`, chosen by the OS: pattern + random digits) is a parameter; `none` = the
+  implementation shows no file (the memory bucket buffers the bytes until `Close`).
+  NOTE the walk does not look at names: a real object called `.tmpl.proto`, `.tmp` or
+  `conf/.tmpfiles.d` is listed like any other (seed C14-m5 made `Walk` skip `.tmp*`). -/
+
+/-- the bucket path of the temp file of an atomic put of (validated) path `p` -/
+def tempPath (p : Str) (tmp : Comp) : Str := renderKey ((keyOfPath p).dropLast ++ [tmp])
+
+/-- `Put(path, Atomic)` + `Write c`, writer left open. -/
+def diskBeginAtomic (d : Disk) (path : Str) (tmp : Option Comp) (c : Content) : Except PErr Disk :=
+  match validatePath path with
+  | .error e => .error e
+  | .ok p =>
+    let k := keyOfPath p
+    if (ancestors k).any (isFile d) then .error .other
+    else
+      let dirs' := addDirs d.dirs (ancestors k)
+      match tmp with
+      | none => .ok { d with dirs := dirs' }
+      | some t => .ok { files := (tempPath p t, c) :: d.files.erase (tempPath p t), dirs := dirs' }
+
+/-- `Close` of the open writer: rename the temp file onto the final path; onto a DIRECTORY the
+    rename fails, the temp file is removed and the error is returned.  Returns the new tree and
+    the error. -/
+def diskCommitAtomic (d : Disk) (path : Str) (tmp : Option Comp) (c : Content) : Disk × Option PErr :=
+  match validatePath path with
+  | .error e => (d, some e)
+  | .ok p =>
+    let k := keyOfPath p
+    let files' := match tmp with
+      | none => d.files
+      | some t => d.files.erase (tempPath p t)
+    if isDir d k then ({ d with files := files' }, some .other)
+    else ({ d with files := (p, c) :: files'.erase p }, none)
+
+/-- begin/commit on a base of either kind; a memory bucket shows nothing until `Close`. -/
+def baseBeginAtomic (isDisk : Bool) (d : Disk) (path : Str) (tmp : Option Comp) (c : Content) : Except PErr Disk :=
+  if isDisk then diskBeginAtomic d path tmp c
+  else match memPut d.files path c with
+    | .ok _ => .ok d
+    | .error er => .error er
+
+def baseCommitAtomic (isDisk : Bool) (d : Disk) (path : Str) (tmp : Option Comp) (c : Content) : Disk × Option PErr :=
+  if isDisk then diskCommitAtomic d path tmp c
+  else match memPut d.files path c with
+    | .ok m' => ({ d with files := m' }, none)
+    | .error er => (d, some er)
+
 /-- `putAll` onto a base bucket of either kind. -/
 def putAllD (isDisk : Bool) : Disk → List (Str × Content) → Except PErr Disk
   | d, [] => .ok d
